@@ -195,17 +195,18 @@ impl<T: RealNumber, D: Distance<Vec<T>, T>> DBSCAN<T, D> {
                             assert(st1 =~= st_pre.drop_last());
                             assert(index == st_pre.last());
                             assert(0 <= nbs_pre[nbs_pre.len() - 1].0 < n);
+                            g.lemma_exp_basic(y_pre, st_pre, i as int, k as int, -1, Seq::<int>::empty(), 0);   // labels are >= -3
                             if y_pre[index as int] == -1 { g.lemma_exp_outlier_not_core(y_pre, st_pre, i as int, k as int, -1, Seq::<int>::empty(), 0, index as int); }
                             if y_pre[index as int] >= 0 {
                                 g.lemma_pop_labelled(y_pre, st_pre, i as int, k as int);
-                                if st1.len() == 0 { g.lemma_finish(y_pre, i as int, k as int); }
+                                if st1.len() == 0 { assert(st1 =~= Seq::<int>::empty()); g.lemma_finish(y_pre, i as int, k as int); }
                             }
                             if y_pre[index as int] == -1 {
                                 g.lemma_pop_join(y_pre, st_pre, i as int, k as int);
                                 g.lemma_conn_other(y_pre, seeds, index as int, k);
                                 lemma_unl_update(y_pre, index as int, k, n as int);
                                 lemma_unl_bound(y_pre.update(index as int, k), n as int);
-                                if st1.len() == 0 { g.lemma_finish(y_pre.update(index as int, k), i as int, k as int); }
+                                if st1.len() == 0 { assert(st1 =~= Seq::<int>::empty()); g.lemma_finish(y_pre.update(index as int, k), i as int, k as int); }
                             }
                         }
 //@before let secondary_neighbors =
@@ -227,7 +228,7 @@ impl<T: RealNumber, D: Distance<Vec<T>, T>> DBSCAN<T, D> {
                                 } else {
                                     g.lemma_pop_join(y_pre, st_pre, i as int, k as int);
                                     g.lemma_conn_other(y_pre, seeds, index as int, k);
-                                    if st1.len() == 0 { g.lemma_finish(y_k, i as int, k as int); }
+                                    if st1.len() == 0 { assert(st1 =~= Seq::<int>::empty()); g.lemma_finish(y_k, i as int, k as int); }
                                 }
                             }
 //@loop 4
@@ -252,6 +253,8 @@ impl<T: RealNumber, D: Distance<Vec<T>, T>> DBSCAN<T, D> {
                                         if !(y_b[jj] == -3 || y_b[jj] == -1) {
                                             g.lemma_step(y_b, st_b, i as int, k as int, p, pl, j as int, false);
                                             if j + 1 == pl.len() && st_b.len() == 0 {
+                                                assert(st_b =~= Seq::<int>::empty());
+                                                assert(mark(y_b, jj) == y_b);
                                                 g.lemma_done_pending(y_b, st_b, i as int, k as int, p, pl);
                                                 g.lemma_finish(y_b, i as int, k as int);
                                             }
